@@ -47,7 +47,8 @@ def gen(rng):
     ids = sorted({i for i, _, _ in installed}) or ['a']
     vers = sorted({v for _, v, _ in installed}) or ['1']
     toks = ['*'] + ids + [f'{i}:{v}' for i in ids for v in vers][:10] + [f'{i}:*' for i in ids] + [f'*:{v}' for v in vers] + \
-        ['a*', 'a?', 'a?:*', 'omw-*:1.4', 'omw-*', '*:20*', '[ab]:*', 'a[b-c]*:*', '*:1.?', 'zz', 'zz:1', '*:9', '?', 'ab:2019', 'A', 'a:']
+        ['a*', 'a?', 'a?:*', 'omw-*:1.4', 'omw-*', '*:20*', '[ab]:*', 'a[b-c]*:*', '*:1.?', 'zz', 'zz:1', '*:9', '?', 'ab:2019', 'A', 'a:'] + \
+        [f'{i}:20??' for i in ids[:3]] + [f'{ids[0]}:20[12][09]', f'{ids[0]}:?', f'{ids[0]}:1.?', '[ab]:1', 'a?:2019', '?:20??', 'omw-??:1.[34]']
     queries = []
     for _ in range(14):
         n = rng.choice([1, 1, 1, 2, 3])
